@@ -15,6 +15,7 @@ from ..workloads import markers as MW
 from ._marker_common import run_trees
 
 PROP = "C07"
+ANCHORS = ['dep_logic.markers.single:MarkerExpression.__str__', 'dep_logic.markers.single:EqualityMarkerUnion.__str__', 'dep_logic.markers.single:InequalityMultiMarker.__str__', 'dep_logic.markers.multi:MultiMarker.__str__', 'dep_logic.markers.union:MarkerUnion.__str__', 'dep_logic.markers:parse_marker', 'dep_logic.markers:_build_markers']
 RULE = ("Operation trees as in C15 (parse, &, |, only, exclude, without_extras, re-parsed renderings as operands; "
         "small-scope strata). Every node value is rendered and re-parsed; every __str__ call of MultiMarker / "
         "MarkerUnion / the two group classes made anywhere is checked the same way (sampled 1 in 4 for nested "
